@@ -501,10 +501,17 @@ func (p *program) assignCheckerParams() error {
 var generatedFileCommentRE = regexp.MustCompile("Code generated .* DO NOT EDIT.")
 
 func (p *program) isGenerated(f *ast.File) bool {
-	// The generated-code marker is a header: it comes before the package clause.
-	return len(f.Comments) != 0 &&
-		f.Comments[0].End() <= f.Package &&
-		generatedFileCommentRE.MatchString(f.Comments[0].Text())
+	// The generated-code marker is a header: it comes before the package clause,
+	// possibly after a license text or build constraints.
+	for _, cg := range f.Comments {
+		if cg.End() > f.Package {
+			break
+		}
+		if generatedFileCommentRE.MatchString(cg.Text()) {
+			return true
+		}
+	}
+	return false
 }
 
 func (p *program) getFilename(f *ast.File) string {
